@@ -104,6 +104,20 @@ func (s *c10Switch) Down() {
 	s.awg.Wait()
 }
 
+// DropConns closes every established connection from the server side; the server stays up (what a
+// Redis restart or an idle time-out looks like to a client that was idle meanwhile).
+func (s *c10Switch) DropConns() {
+	s.cmu.Lock()
+	conns := s.conns
+	s.conns = nil
+	s.cmu.Unlock()
+	for _, c := range conns {
+		c.Close()
+	}
+	// give the FINs a moment to reach the client's sockets (loopback; the station is idle)
+	time.Sleep(20 * time.Millisecond)
+}
+
 // ---- child
 
 type c10RCStep struct {
@@ -172,7 +186,7 @@ func TestVerif_C10_realclientChild(t *testing.T) {
 	}
 
 	for pi, state := range phases {
-		if state == "up" {
+		if state == "up" || state == "drop" {
 			if err := srv.Up(); err != nil {
 				res.NotRun = "cannot bind the station's Redis address: " + err.Error()
 				return
@@ -207,6 +221,9 @@ func TestVerif_C10_realclientChild(t *testing.T) {
 				}
 			}
 		}
+		if state == "drop" {
+			srv.DropConns() // the station was idle; the next publication (New) follows
+		}
 		if _, err := e.deliver(c07Build(msg)); err != nil {
 			res.Error = "deliver: " + err.Error()
 			return
@@ -219,9 +236,15 @@ func TestVerif_C10_realclientChild(t *testing.T) {
 		}
 		collect(pi, state, "New", len(fresh))
 		for _, d := range fresh {
+			if state == "drop" {
+				srv.DropConns() // idle again; the next publication is an Update
+			}
 			w.use(d)
 		}
 		collect(pi, state, "Update", len(fresh))
+	}
+	if phases[len(phases)-1] == "drop" {
+		srv.DropConns() // idle; the next publication is the shutdown Clear
 	}
 	e.rm.Cleanup()
 	collect(len(phases)-1, phases[len(phases)-1], "Clear", 1)
@@ -277,8 +300,8 @@ func c10RunChild(t *testing.T, h c10RCHistory) (c10RCResult, error) {
 // was not acted on.
 func c10JudgeChild(h c10RCHistory, res c10RCResult) *c10Viol {
 	for _, st := range res.Steps {
-		if st.State != "up" {
-			continue
+		if st.State != "up" && st.State != "drop" {
+			continue // Redis unreachable: what is published is lost in any tree
 		}
 		if st.Arrived < st.Expected {
 			return c10V("realclient:not-published:"+st.Action,
@@ -296,6 +319,8 @@ func c10JudgeChild(h c10RCHistory, res c10RCResult) *c10Viol {
 
 func c10HistoryClass(ph []string) string {
 	switch {
+	case strings.Contains(strings.Join(ph, ","), "drop"):
+		return "availability:connection-dropped-while-idle"
 	case !strings.Contains(strings.Join(ph, ","), "down"):
 		return "availability:always-up"
 	case ph[0] == "down" && len(ph) == 2:
@@ -307,7 +332,7 @@ func c10HistoryClass(ph []string) string {
 }
 
 func TestVerif_C10_realclient(t *testing.T) {
-	rec := vh.NewRec("C10", "realclient", "the station's REAL getRedisClient / initRedisClient (nothing swapped) against a fake Redis on the hard-coded localhost:6379 that is switched on and off by an availability history; one subprocess per history (the client is created under sync.Once). Per phase: a registration is ingested through the real pipeline (dual-stack when up), each new registration is used (MarkActive + Proxy), at the end Cleanup(). Every New / Update / Clear published while Redis is reachable must arrive and be acted on by the modelled detector. Exhaustive over the listed availability histories (quick: 4, thorough: every history of 1-4 phases that ends reachable, plus two ending down). Non-trivial: a history with a down phase. Only shard 0 runs it; not run (and not failed) if port 6379 cannot be bound.")
+	rec := vh.NewRec("C10", "realclient", "the station's REAL getRedisClient / initRedisClient (nothing swapped) against a fake Redis on the hard-coded localhost:6379 that is switched on and off by an availability history; one subprocess per history (the client is created under sync.Once). Per phase: a registration is ingested through the real pipeline (dual-stack when up), each new registration is used (MarkActive + Proxy), at the end Cleanup(). Every New / Update / Clear published while Redis is reachable must arrive and be acted on by the modelled detector. Exhaustive over the listed availability histories (quick: 6, thorough: every history of 1-4 phases over {up, down, drop} that ends reachable, plus two ending down); in a drop phase the server stays up but closes the established connections while the station is idle, before the New, before each Update and before the shutdown Clear. Non-trivial: a history with a down phase. Only shard 0 runs it; not run (and not failed) if port 6379 cannot be bound.")
 	defer rec.Flush()
 	rec.SetExhaustive(true)
 	var hs []c10RCHistory
@@ -321,12 +346,13 @@ func TestVerif_C10_realclient(t *testing.T) {
 		if idx, _ := vh.Shard(); idx != 0 {
 			return
 		}
-		hs = []c10RCHistory{{[]string{"up"}}, {[]string{"down", "up"}}, {[]string{"up", "down", "up"}}, {[]string{"down", "down", "up"}}}
+		hs = []c10RCHistory{{[]string{"up"}}, {[]string{"down", "up"}}, {[]string{"up", "down", "up"}}, {[]string{"down", "down", "up"}},
+			{[]string{"up", "drop"}}, {[]string{"up", "drop", "up"}}}
 		if vh.Thorough() {
 			hs = nil
 			var gen func(p []string)
 			gen = func(p []string) {
-				if len(p) > 0 && p[len(p)-1] == "up" {
+				if len(p) > 0 && p[len(p)-1] != "down" {
 					hs = append(hs, c10RCHistory{append([]string(nil), p...)})
 				}
 				if len(p) == 4 {
@@ -334,6 +360,9 @@ func TestVerif_C10_realclient(t *testing.T) {
 				}
 				gen(append(append([]string(nil), p...), "up"))
 				gen(append(append([]string(nil), p...), "down"))
+				if len(p) > 0 && len(p) < 3 {
+					gen(append(append([]string(nil), p...), "drop"))
+				}
 			}
 			gen(nil)
 			hs = append(hs, c10RCHistory{[]string{"up", "down"}}, c10RCHistory{[]string{"down", "up", "down"}})
@@ -368,7 +397,7 @@ func TestVerif_C10_realclient(t *testing.T) {
 	}
 	probe.Close()
 	if vh.ReplayFile() == "" {
-		rec.Require("availability:always-up", "availability:down-at-first-use-then-up", "availability:flapping-after-good-start")
+		rec.Require("availability:always-up", "availability:down-at-first-use-then-up", "availability:flapping-after-good-start", "availability:connection-dropped-while-idle")
 	}
 	for _, h := range hs {
 		var v *c10Viol
@@ -386,7 +415,7 @@ func TestVerif_C10_realclient(t *testing.T) {
 				break
 			}
 		}
-		rec.Case(strings.Contains(strings.Join(h.Phases, ","), "down"), vh.Digest(h), h, c10HistoryClass(h.Phases))
+		rec.Case(len(h.Phases) > 1, vh.Digest(h), h, c10HistoryClass(h.Phases))
 		if v != nil {
 			rec.Violation(t, v.Key, h, "%s (reproduced in two separate runs)", v.Msg)
 		}
